@@ -23,7 +23,9 @@ Section C09_avg.
        fst (Avg.ask c s n true hint) = fold_left (@Avg.tell_pending N) pts s).
   Proof.
     intros c s n hint. unfold Avg.ask.
-    destruct n; [split; [reflexivity|discriminate]|].
+    destruct n.
+    { split; [reflexivity|]. intros pts imp H. cbn [snd fst] in *. inversion H; subst.
+      unfold Avg.ask_points. cbn [seq existsb fold_left]. reflexivity. }
     destruct (Avg.loss_improvement c s (S n)); (split; [reflexivity|]); [|discriminate].
     intros pts imp H. cbn [snd fst] in *. inversion H; subst. reflexivity.
   Qed.
